@@ -62,6 +62,7 @@ class SymWorld(World):
         self.rng = random.Random(12345)
         self.numeric_hits = 0
         self.failed_classes = set()
+        core.WITNESS[0] = self._witness
 
     def mod(self, name):
         """submodule lentil.<name> of the private (symbolic) package"""
@@ -253,7 +254,20 @@ class SymWorld(World):
             s.pop()
             s.set('timeout', core.TIMEOUT_MS[0])
 
-    def sample(self, tries=12):
+    def _witness(self, f):
+        """is there a sampled point of the current path (assumptions + path condition hold numerically) that satisfies f?"""
+        for _ in range(3):
+            sm = self.sample(tries=6, solver_fallback=False)
+            if sm is None:
+                return False
+            try:
+                if core.eval_z3(f, sm[1]):
+                    return True
+            except (KeyError, ZeroDivisionError, OverflowError, ValueError, SymxUnsupported, AttributeError):
+                return False
+        return False
+
+    def sample(self, tries=12, solver_fallback=True):
         """A 'generic' point of the current path: random input values within their declared bounds that satisfy the
         assumptions and the path condition (checked numerically); the solver is asked only if sampling fails.
         -> (values {name: [num, den]}, Env) or None"""
@@ -283,6 +297,8 @@ class SymWorld(World):
                     return vals, env
             except (KeyError, ZeroDivisionError, OverflowError, ValueError, SymxUnsupported, AttributeError):
                 continue
+        if not solver_fallback:
+            return None
         m = self.random_model()
         if m is None:
             return None
